@@ -211,6 +211,13 @@ fn make_case_t(via: StreamVia, prefill: &[u32], prefill_close: bool, feeder: &[O
     items.extend(feeder.iter().filter_map(|o| if let Op::Feed(i) = o { Some(*i) } else { None }));
     let closes = prefill_close || feeder.iter().any(|o| matches!(o, Op::CloseStream));
     let mut role = RoleCfg { default_work: Work { yields, ..Work::default() }, ..RoleCfg::default() };
+    let ticking = TICKING.with(|t| t.get());
+    if ticking {
+        // a stream-attached actor may run timers like any other: they end with it, they do not
+        // keep it going
+        role.started_actions.push(Action::Interval { timer: 1, period: 2 });
+        role.started_actions.push(Action::IntervalWith { timer: 2, period: 3 });
+    }
     let mut spawn = SpawnCfg::plain(Mailbox::U);
     if let Some(fail) = timeout {
         spawn.timeout = Some((2, fail));
@@ -229,9 +236,11 @@ fn make_case_t(via: StreamVia, prefill: &[u32], prefill_close: bool, feeder: &[O
         Some(i) => format!("stream [the handler of item {i} calls ctx.stop()]"),
         None => "stream".to_string(),
     }, 1);
+    let desc = if ticking { desc.replacen("stream", "stream [the actor runs two intervals]", 1) } else { desc };
     Case {
         desc,
-        exec: ExecCfg::default(),
+        // (with timers an actor that fails to end never lets the run go quiescent)
+        exec: if ticking { ExecCfg { horizon: 12, ..ExecCfg::default() } } else { ExecCfg::default() },
         bound,
         scene: Box::new(ProgScene { variant: crate::progscene::current_variant(),
             spawn,
@@ -253,6 +262,8 @@ fn seqs(alpha: &[A], n: usize) -> Vec<Vec<A>> {
 }
 
 thread_local! {
+    /// the actor registers two intervals in started()
+    static TICKING: std::cell::Cell<bool> = const { std::cell::Cell::new(false) };
     /// the handler of this item (if the case's stream yields it) stops the actor from inside
     static ITEM_STOP: std::cell::Cell<Option<u32>> = const { std::cell::Cell::new(None) };
 }
@@ -376,6 +387,13 @@ pub fn fair_cases(pid: &'static str) -> Vec<Case> {
 
 fn cases(tier: Tier) -> Vec<Case> {
     let mut v = all_cases(tier);
+    // the same with timers running in the actor: single-operation programs on streams that stay open
+    TICKING.with(|t| t.set(true));
+    v.extend(all_cases(tier).into_iter().filter(|c| c.desc.contains("close=false") && c.desc.contains("yields=0") && !c.desc.contains(',') || false).map(|mut c| {
+        c.bound = c.bound.or(Some(if tier == Tier::Thorough { 5 } else { 3 }));
+        c
+    }));
+    TICKING.with(|t| t.set(false));
     // an item handler that stops the actor from inside (item 72 where the stream yields it)
     ITEM_STOP.with(|i| i.set(Some(72)));
     v.extend(all_cases(tier).into_iter().filter(|c| c.desc.contains("calls ctx.stop()")));
